@@ -34,7 +34,7 @@ class Spec:
 
     def summary(self):
         fail = not self.good
-        return '%d,%d,%d,%d%d,%d' % (-1 if fail else self.g, -1 if fail else self.p, self.F, self.good, self.eof, self.gcount)
+        return '%d,%d,%d,%d%d,%d,%d' % (-1 if fail else self.g, -1 if fail else self.p, self.F, self.good, self.eof, self.gcount, self.B)
 
     def step(self, op):
         """returns the expected token ('blocked' ends the history) or None when out of scope."""
@@ -52,6 +52,8 @@ class Spec:
             return c
         if c == 'r':
             n = int(rest or 0)
+            if n > self.B:
+                self.B = n          # a request larger than the buffer raises the buffer size (before waiting)
             if not self.abort and not (n + self.g <= self.p) and not (n + self.g > self.F):
                 return 'blocked'
             if n + self.g > self.F:
@@ -94,7 +96,7 @@ class Spec:
 
 
 def oracle(ops):
-    """expected visible behaviour: list of 'tok|tellg,tellp,fileSize,goodeof,gcount' (container list not included)."""
+    """expected visible behaviour: list of 'tok|tellg,tellp,fileSize,goodeof,gcount,bufferSize' (container list not included)."""
     sp = Spec()
     out = []
     for op in ops:
@@ -115,7 +117,7 @@ def visible(line):
     for t in toks:
         if '|' in t:
             head, st = t.split('|', 1)
-            out.append(head + '|' + ','.join(st.split(',')[:5]))
+            out.append(head + '|' + ','.join(st.split(',')[:6]))
         else:
             out.append(t)
     return out
@@ -248,7 +250,7 @@ def run(v, tier, seed, replay=None):
         'obligations': info['obligations'], 'discharged': info['discharged'], 'checker_cmd': info['checker_cmd'],
         'trusted_base': TRUSTED + info['print_assumptions'], 'failed_obligations': info['failed'],
         'evaluations': len(cases), 'distinct_nontrivial': len(set(c for c in cases if len(c.split()) >= 4)),
-        'rule': 'histories over the alphabet of the property (w<hex> write bytes, c<hex> append a whole container, r<n> read, s<off> relative seek, n nextLogContainer, d dropOldData, F/B/C set declared end / buffer size / default container size 1..64, a abort): corpus, hand-picked corners and random histories of 3..40 calls whose chunk sizes straddle container boundaries; each ends by draining the unread bytes. Every history runs on the extracted model, on the real UncompressedFile, on the extracted Coq byte queue of C15_refines (Lib/UFSpec.v) and on a transcription of it in Python written from the property text (the two must agree token for token) (compared: bytes, gcount, tellg, tellp, declared end, good/eof after every call; the container list is compared between model and implementation only). Non-trivial = distinct history of at least 4 calls.',
+        'rule': 'histories over the alphabet of the property (w<hex> write bytes, c<hex> append a whole container, r<n> read, s<off> relative seek, n nextLogContainer, d dropOldData, F/B/C set declared end / buffer size / default container size 1..64, a abort): corpus, hand-picked corners and random histories of 3..40 calls whose chunk sizes straddle container boundaries; each ends by draining the unread bytes. Every history runs on the extracted model, on the real UncompressedFile, on the extracted Coq byte queue of C15_refines (Lib/UFSpec.v) and on a transcription of it in Python written from the property text (the two must agree token for token) (compared: bytes, gcount, tellg, tellp, declared end, good/eof, buffer size after every call; the container list is compared between model and implementation only). Non-trivial = distinct history of at least 4 calls.',
         'histories_in_scope_of_reference': in_scope, 'histories_ending_blocked': sum(1 for i in io if 'blocked' in i),
         'length_distribution': {'min': min(lens), 'max': max(lens), 'mean': round(sum(lens) / len(lens), 1)},
         'op_distribution': {k: sum(1 for c in cases for t in c.split() if t[0] == k) for k in 'wcrsndFBCa'},
